@@ -8,6 +8,7 @@ import (
 	"strconv"
 	"strings"
 	"sync"
+	"sync/atomic"
 	"time"
 
 	"github.com/php-any/origami/data"
@@ -165,25 +166,48 @@ func (s *session) thread(t int) {
 	s.events <- event{t: t, kind: 'e'}
 }
 
+// A step that the model says is enabled must finish. "Did not finish" is decided by a heartbeat
+// rather than by wall-clock time alone: a goroutine of this process ticks every 50 ms, and a hang is
+// declared only after hangBeats ticks were observed while the step made no progress — a paused or
+// starved process (VM pause, overloaded machine) does not tick and therefore cannot raise the alarm.
 const watchdog = 10 * time.Second
+const hangBeats = 200
 
 var errHang = fmt.Errorf("hang")
 
+var beat atomic.Uint64
+var beatOnce sync.Once
+
+func startHeartbeat() {
+	beatOnce.Do(func() {
+		go func() {
+			for {
+				time.Sleep(50 * time.Millisecond)
+				beat.Add(1)
+			}
+		}()
+	})
+}
+
+// waitBeats waits for an event until hangBeats heartbeats have passed.
 func (s *session) next(tm *time.Timer) (event, error) {
 	select {
 	case ev := <-s.events:
 		return ev, nil
 	default:
 	}
-	tm.Reset(watchdog)
-	select {
-	case ev := <-s.events:
-		if !tm.Stop() {
-			<-tm.C
+	start := beat.Load()
+	for {
+		tm.Reset(time.Second)
+		select {
+		case ev := <-s.events:
+			tm.Stop()
+			return ev, nil
+		case <-tm.C:
+			if beat.Load()-start >= hangBeats {
+				return event{}, errHang
+			}
 		}
-		return ev, nil
-	case <-tm.C:
-		return event{}, errHang
 	}
 }
 
@@ -205,15 +229,14 @@ func runSchedule(capacity int, progs []string, sc sched, settle time.Duration) (
 	for t := range s.grant {
 		s.grant[t] = make(chan struct{}, 1)
 	}
+	startHeartbeat()
 	cur = s
 	channel.VerifYield = hook
 	for t := 0; t < n; t++ {
 		go s.thread(t)
 	}
 	tm := time.NewTimer(time.Hour)
-	if !tm.Stop() {
-		<-tm.C
-	}
+	tm.Stop() // go >= 1.23 timers: no stale value after Stop/Reset
 	finished := make([]bool, n)
 	exited := 0
 	inCall := make([]bool, n) // thread is parked at a yield point inside Send/Close
@@ -269,9 +292,7 @@ stepLoop:
 						exited++
 						continue
 					}
-					if !tm.Stop() {
-						<-tm.C
-					}
+					tm.Stop() // go >= 1.23 timers: no stale value after Stop/Reset
 					if ev.kind == 'd' {
 						record(ev)
 					}
@@ -402,9 +423,7 @@ stepLoop:
 					exited++
 					continue
 				}
-				if !tm.Stop() {
-					<-tm.C
-				}
+				tm.Stop() // go >= 1.23 timers: no stale value after Stop/Reset
 				if ev.kind == 'd' {
 					record(ev)
 				}
@@ -427,10 +446,18 @@ stepLoop:
 		}()
 		s.ch.Close()
 	}()
-	deadline := time.After(watchdog)
+	cleanupStart := beat.Load()
 	closeDone := false
 	for exited < n || !closeDone {
+		var deadline <-chan time.Time
+		if beat.Load()-cleanupStart >= hangBeats {
+			dl := make(chan time.Time)
+			close(dl)
+			deadline = dl
+		}
+		tm.Reset(time.Second)
 		select {
+		case <-tm.C:
 		case <-done:
 			closeDone = true
 			done = nil
